@@ -10,7 +10,7 @@ claimed = {
  'C11': ('codec-symmetry tables over the type-checked program (tag constants, shared field-order function, single head encoder, sort-before-emit order, encodable static argument types, canonical boundary comparisons)',
          'NARROW. Only structural symmetry clauses necessary for the round trip are decided; decode(encode(v))==v, shortest-form arithmetic, int64 minimum and timestamp fidelity are value-level and are NOT decided by this check (static analysis cannot reach them).',
          'Trusts go/types+go/ssa; the clauses are listed in the evidence explanation.', 'DESIGN.md §2 C11'),
- 'C14': ('sibling-agreement table for the three key derivations, persistence field-completeness table, gen/kill dataflow for PRF reset, must-pass for peer-parameter validation',
+ 'C14': ('sibling-agreement table for the three key derivations, persistence field-completeness table, gen/kill dataflow for PRF reset, must-pass for peer-parameter validation, value-origin scan of every KDF secret (no variable-width big.Int.Bytes())',
          'NARROW. Decides derivation shape agreement, completeness of session (un)marshalling, PRF reset per KDF block and rejection gates for degenerate peer parameters; equality of both parties\' keys, conformance with SP 800-108 and session independence are numerical and NOT decided.',
          'Trusts go/types+go/ssa, crypto/ecdh, crypto/rsa, math/big.', 'DESIGN.md §2 C14'),
  'C15': ('loop-carried budget shape check, must-pass for MTU and overhead guards, boundary-comparison lint',
@@ -24,14 +24,14 @@ claimed = {
          'Structural necessary conditions only: wire-reachable code writes no package-level state, shared server objects are never written through their receivers, the sqlite store signs with the secret it read back, the service-info pipes access their buffer/error/channels only under their mutexes (one reviewed exception), the closable readers channel is sent on only after its close indicator was seen open under the closing lock, no mutating method is called on package-level objects, sqlite.Open limits its pool to one connection, and every field of the service-info writer that a closer and the producer both touch (with a write on either side) is accessed under one common mutex. Race freedom in general, deadlock freedom, lost wake-ups and isolation inside other backends are properties of schedules and are not decided.',
          'Trusts go/types+go/ssa; lock identity is by canonical receiver address, carried into helpers through their call sites; the guarded-field table and its single exception are in /verif/checker/c19.go.', 'DESIGN.md §2 C19'),
 
- 'C10': ('peer-taint analysis over the class-hierarchy call graph + guard obligations (explicit panics, partial lookups, allocations, compiler-unproven bounds, stdlib preconditions, type assertions, decoded-pointer nil checks) + must-pass dataflow',
+ 'C10': ('peer-taint analysis over the class-hierarchy call graph + guard obligations (explicit panics, partial lookups, allocations, compiler-unproven bounds, stdlib preconditions, type assertions, decoded-pointer nil checks, optional fields and optional parameters across static calls — contradiction rule) + must-pass dataflow',
          'Structural necessary conditions over all code reachable from the wire entry points: no explicit panic, unbounded allocation, unguarded index/slice (among those the Go compiler could not prove), unguarded stdlib precondition or unchecked type assertion is reachable with a peer-controlled operand without a dominating guard; pointers the decoder can leave nil (CBOR null) are compared with nil before they are dereferenced; responders convert failures to error messages; content-length guards dominate body processing. Nil dereferences of pointers that do not come from decoding, hangs, CPU and memory below the bounds are not decided.',
          'Trusts go/types+go/ssa, the Go compiler\'s prove pass (bounds-check elimination) as discharge oracle, the taint source/sink tables and three reviewed tables (panics, bounds, preconditions: one reason per entry) in /verif/checker/e3.go; values from the state store, callbacks and registries are assumed not attacker-controlled.', 'DESIGN.md §2 C10'),
- 'C12': ('peer-taint guard obligations restricted to package cbor + must-pass (trailing data) + byte-string bounding table',
+ 'C12': ('peer-taint guard obligations restricted to package cbor + must-pass (trailing data) + byte-string bounding table + who-may-call table for reader primitives (exact reads)',
          'Structural necessary conditions for the decoder with every input byte attacker-controlled: allocations sized from a wire head are dominated by an upper bound (and are non-negative), Unmarshal succeeds only without trailing bytes, byte-string wrappers decode from a reader limited to the announced length, explicit panics and compiler-unproven bounds are discharged; allocations proportional to claimed (not received) length are enumerated and carried as known findings. Termination, exact consumption and reflect-internal panics are not decided.',
          'Trusts go/types+go/ssa, the compiler\'s prove pass, the reviewed tables in /verif/checker/e3.go.', 'DESIGN.md §2 C12'),
 
- 'C03': ('interprocedural must-pass dataflow + composite-literal field-source tables over go/ssa',
+ 'C03': ('interprocedural must-pass dataflow + composite-literal field-source tables over go/ssa + sibling agreement of the replacement-key encoder',
          'Structural necessary conditions for agreement of credential and stored voucher: atomic placement of AddVoucher/ReplaceVoucher behind their session prerequisites and nonce checks; credentials returned only after the final message; the replacement header built by the device and the one stored by the owner assign all fields from the prescribed sources; SetupDevice carries the very values stored in the session; the HMACed header is the one that fills the credential; the DI header stored is the one sent. Equality of the encoded bytes, blob round trips, multi-round histories and crash points are not decided (value-/execution-level).',
          'Trusts go/types+go/ssa and the rule tables; field-source classes are provenance over-approximations.', 'DESIGN.md §2 C03'),
  'C09': ('registry / constant / switch tables extracted from the type-checked program and cross-compared; two must-pass gates',
@@ -43,7 +43,7 @@ claimed = {
  'C17': ('must-pass dataflow (check dominates rename) inside package fsim + file-creation who-may-call table',
          'Structural necessary condition: each of the three rename-to-destination sites is dominated by the digest comparison (or explicit absence of a digest) and, where bytes are counted, by the length comparison; received data goes only to CreateTemp files. Bit identity, chunk/MTU boundaries and short transfers are not decided.',
          'Trusts go/types+go/ssa, rule tables, crypto/sha512, os.Rename atomicity.', 'DESIGN.md §2 C17'),
- 'C18': ('SQL access table (constant arguments of insert/update/query/remove) vs schema parsed from Init; must-pass for session binding; receiver/global store scan',
+ 'C18': ('SQL access table (constant arguments of insert/update/query/remove) vs schema parsed from Init; must-pass for session binding; receiver/global store scan; strict-insert table for the add that ReplaceVoucher builds on',
          'Structural necessary conditions: every table/column used exists; every access to a session-scoped table is keyed by the authenticated session id; upsert targets are unique keys (session for session tables); cascades exist; setter/getter column agreement and no shared value columns; ReplaceVoucher needs both insert and delete; expiry enforced with matching units; no in-memory state in *DB. SQLite semantics, concurrent histories, value fidelity and restarts as executions are not decided.',
          'Trusts go/types+go/ssa and the small SQL/DDL parser in the checker (regular CREATE TABLE shapes only; anything else is reported as undecided).', 'DESIGN.md §2 C18'),
  'C20': ('must-pass dataflow with complementary-flag correlation, role-arm shape check, decoded-on-success use analysis, constant coverage table',
@@ -65,7 +65,7 @@ claimed = {
  'C08': ('interprocedural must-pass dataflow, backward all-paths search, dispatch/constant tables over go/ssa',
          'Structural necessary conditions: each server effect has one wire-reachable call site, in the arm of the causing message, after the session reads of its prerequisite step; dispatch tables agree with message_types.go; token creation only on start messages, invalidation after every failure response, before final/error responses and on client error messages, always with a token-bearing context; sqlite tokens are MAC-checked. Does not explore histories or interleavings as executions.',
          'Trusts go/types+go/ssa, rule tables; sessions are assumed isolated by token (C18).', 'DESIGN.md §2 C08'),
- 'C04': ('interprocedural must-pass dataflow (check dominates success return) over go/ssa + call graph',
+ 'C04': ('interprocedural must-pass dataflow (check dominates success return) over go/ssa + call graph + slice-aliasing scan of appends to the voucher entry list',
          'Structural necessary condition decided on all paths: each exported voucher verifier returns success only after its comparison atoms (hmac.Equal over recomputed values, x509 Verify, per-entry Sign1.Verify/header-hash/previous-hash, recursion on entries[1:] with the verified key) and ExtendVoucher only after type/size/owner-key equality. It does not prove that untampered vouchers verify nor bit-level tamper coverage; that is value-level and outside static reach.',
          'Trusts go/types+go/ssa, the atom/anchor tables in /verif/checker, and that stdlib hash/HMAC/x509/ECDSA/RSA behave as documented; provenance is over-approximate.', 'DESIGN.md §2 C04'),
  'C06': ('interprocedural must-pass dataflow (check dominates effect) over go/ssa + call graph, provenance-typed comparison atoms',
